@@ -470,6 +470,8 @@ class Engine(object):
         if "ci" in e:
             if t[0] == "list" and not e.get("from_end") and e["ci"] < len(t[1]):
                 return t[1][e["ci"]]
+            if t[0] == "call" and t[1] == "repeat" and len(t[2]) == 2:
+                return t[2][0]          # [v; n][i] is v
             return ("index", t, ("lit", e["ci"]))
         return ("unknown", "proj", str(e))
 
@@ -663,6 +665,18 @@ class Engine(object):
             # a trait method passed as a value (`.then(Response::default)`): name it by its instantiation
             return ("fnitem", o["dp"], strip_generics(o.get("inst") or o["path"]), HD(o.get("ctor")))
         if k == "const":
+            if o["dp"] not in self.by_dp and o.get("substs"):
+                # an associated const of a trait, named through a type: the const of that type's impl
+                env = self._tyenv.get(fid) or {}
+                sty = env.get(o["substs"][0], o["substs"][0])
+                nm = o["dp"].rsplit("::", 1)
+                if len(nm) == 2:
+                    want = "<%s as %s>::%s" % (strip_generics(sty), nm[0], nm[1])
+                    if not hasattr(self, "_dp_of_path"):
+                        self._dp_of_path = {b.path: dp for dp, b in self.by_dp.items()}
+                    for pth, b in self.facts.bodies.items():
+                        if b.kind == "const" and pth.endswith("::" + nm[1]) and strip_generics(pth) == want and pth in self._dp_of_path:
+                            return self.eval_const(self._dp_of_path[pth], pth)
             return self.eval_const(o["dp"], o.get("path"))
         if k == "promoted":
             return self.eval_const(o["dp"], None)
@@ -805,7 +819,7 @@ class Engine(object):
             return (a or {}).get("pretty", ta)
         return None
 
-    def workspace_from(self, st, arg, call):
+    def workspace_from(self, st, arg, call, name=None):
         """`x.into()` / `U::from(x)` where the workspace implements From<typeof x> for U: the impl's body (else None)"""
         if not hasattr(self, "_froms"):
             import re as _re
@@ -830,6 +844,14 @@ class Engine(object):
             if len(subs) == 2:
                 dst = strip_generics(subs[1] if is_into else subs[0])
             ty = src if src in self._froms else None
+        if ty is None and call is None and name:
+            # called as a function value (`.map(Weight::from)`): the path names the target; its only impl is the one meant
+            import re as _re
+            m = _re.match(r"^<(.+) as std::convert::From>::from$", name)
+            if m:
+                hits = [b for cs in self._froms.values() for u, b in cs if u == strip_generics(m.group(1))]
+                if len(hits) == 1:
+                    return hits[0]
         if ty is None:
             ty = self.pretty_type_of(st, arg)       # ADT names carry no arguments: usable only for non-generic sources
             if ty is not None and "<" in ty:
@@ -1458,10 +1480,22 @@ class Engine(object):
             if sty in _INT_BITS and arith and len(args) == 2:
                 # `a + b` spelled through a type parameter bound to a primitive integer: the integer's own (checked) operator
                 return [(st, fold_bin(arith, self.val(st, args[0]), self.val(st, args[1]), True))]
+            nref = 0
+            if sty:
+                import re as _re
+                bare = _re.sub(r"^(&('\w+ )?(mut )?)+", "", sty)      # `&T: Trait` by the blanket impls forwards to T's
+                nref = sty[:len(sty) - len(bare)].count("&")
+                sty = bare
             if sty and self.facts.is_workspace_type(strip_generics(sty)):
                 impl = self.resolve_trait_call(st, t["callee_dp"], None, ty=strip_generics(sty))
                 if impl is not None and depth < self.max_depth and impl.path not in st.stack:
-                    return self.run_body(st, impl, list(args), depth + 1, site)
+                    cargs = list(args)
+                    for _ in range(nref):           # the forwarding impls hand on `*self`
+                        if cargs and isinstance(cargs[0], tuple) and cargs[0] and cargs[0][0] == "ref":
+                            inner = self.read_loc(st, cargs[0][1], cargs[0][2])
+                            if isinstance(inner, tuple) and inner and inner[0] == "ref":
+                                cargs[0] = inner
+                    return self.run_body(st, impl, cargs, depth + 1, site)
         h = self.prims.lookup(name, trait_name)
         if h is not None:
             self._cur_cfid = cfid
